@@ -262,6 +262,25 @@ class ShortReader(io.RawIOBase):
         return n
 
 
+def off_grid_divchange(ap):
+    """a divisions change at a time where no object of the part starts or ends (so the part has no time point there)"""
+    times = set()
+    for n in ap["notes"]:
+        times.update((n["t"], n["e"]))
+    for m in ap["measures"]:
+        times.update((m["s"], m["e"]))
+    for key in ("timesigs", "keysigs", "clefs", "tempos", "nav", "fermatas"):
+        times.update(x["t"] for x in ap.get(key, []))
+    for d in ap.get("dirs", []):
+        times.add(d["t"])
+        if d.get("e") is not None:
+            times.add(d["e"])
+    for key in ("repeats", "endings"):
+        for x in ap.get(key, []):
+            times.update((x["s"], x["e"]))
+    return any(t not in times for t, q in ap["qdivs"][1:])
+
+
 def execute(case, keep_log=False):
     import partitura as pt
     from partitura.io.importmusicxml import load_musicxml
@@ -292,7 +311,7 @@ def execute(case, keep_log=False):
             if want != got:
                 miss = [x for x in want if x not in got][:3]
                 extra = [x for x in got if x not in want][:3]
-                res.violation("R2-peer-interpreter", "save", "part %s: an independent MusicXML reader finds other sounding notes than the score has: missing %s, unexpected %s" % (ap["id"], [(str(a), str(b), c) for a, b, c in miss], [(str(a), str(b), c) for a, b, c in extra]), site="sounding-notes")
+                res.violation("R2-peer-interpreter", "save", "part %s: an independent MusicXML reader finds other sounding notes than the score has: missing %s, unexpected %s" % (ap["id"], [(str(a), str(b), c) for a, b, c in miss], [(str(a), str(b), c) for a, b, c in extra]), site="sounding-notes" + (":divisions-change-off-grid" if off_grid_divchange(ap) else ""))
                 break
     except Exception as e:
         res.violation("R2-peer-interpreter", "save", "independent reader failed on the written file: %s: %s" % (type(e).__name__, e), site="parse")
